@@ -3,13 +3,13 @@ C20  Async lru_cache: right value, single flight, bounded retention.
 
 Property theorems only.  Model: `AnyioModel.Cache.Lru` (functools.py `AsyncLRUCacheWrapper.__call__`
 with the F3 repair, plus the per-placeholder `Lock`s); invariant and helper lemmas:
-`AnyioModel.Cache.{LruDict, LruProofs, LruStep, LruInv, LruOut, LruEvict}`.  Every statement
+`AnyioModel.Cache.{LruDict, LruProofs, LruStep, LruInv, LruOut, LruEvict, LruChange, LruHit}`.  Every statement
 quantifies over all reachable states, i.e. over all finite event lists: any number of callers and
 keys, any `maxsize` (`none`, 0, 1, ...), any `ttl`, `always_checkpoint` on or off, any interleaving
 of call segments with completions / failures of the wrapped function, cancellations (`fc`, `mc`,
 `sc`) and clock ticks.
 -/
-import AnyioModel.Cache.LruEvict
+import AnyioModel.Cache.LruHit
 
 namespace AnyioModel.Cache.Lru
 
@@ -144,8 +144,7 @@ theorem C20_value_hit {s s' : State} {e : Ev} {v : Val} {c : Nat} (h : Reach s)
     · exact absurd hpc hnow
     · exact ⟨x, hg, (hi.value_last _ _ _ hg).1, hx⟩
 
-/- TEMP-DISABLED
-/- `always_checkpoint`: the value a call carries through its `checkpoint()` was, when the hit
+/-- `always_checkpoint`: the value a call carries through its `checkpoint()` was, when the hit
 was counted, the retained and unexpired entry of its key. -/
 theorem C20_value_checkpoint_hit {s s' : State} {e : Ev} {o : Out} {c : Nat} (h : Reach s)
     (hs : step s e = some (s', o)) (h0 : s.pc c ≠ .hitYield ∧ s.pc c ≠ .hitYieldMC)
@@ -154,7 +153,7 @@ theorem C20_value_checkpoint_hit {s s' : State} {e : Ev} {o : Out} {c : Nat} (h 
       s.last (s'.key c) = some (s'.hv c) :=
   hitYield_origin (C20_invariant h) hs h0 h1
 
-/- LRU: a completed entry leaves the dict only (a) because a call for *its own key* found it
+/-- LRU: a completed entry leaves the dict only (a) because a call for *its own key* found it
 expired and replaced it by a placeholder, or (b) because a computation finished while the cache
 was full and the entry was the least recently used completed one (the first completed entry in
 the recency-ordered dict; everything in front of it is an in-flight placeholder). -/
@@ -168,7 +167,6 @@ theorem C20_lru {s s' : State} {e : Ev} {o : Out} (h : Reach s)
       m < s.currsize + 1 ∧ dget k s'.dict = none ∧ firstCompleted s.dict = some k) :=
   dict_change (C20_invariant h) hs hk
 
-TEMP-END -/
 /-- ... and a use (hit or store) makes the key the most recently used one without disturbing the
 relative order of the others (`move_to_end`), so the dict order *is* the recency order. -/
 theorem C20_lru_order (k : Key) (d d' : Dict) (hm : moveToEnd? k d = some d') :
